@@ -604,7 +604,9 @@ func (e *Env) callExpr(ex *ast.CallExpr) (SVal, error) {
 		}
 		b, err := e.eval(ex.Args[1])
 		if err != nil {
-			return SVal{}, err
+			// the consequent cannot even be stated on this path (it names an event that did not happen):
+			// the antecedent must then be impossible here
+			return mkBool(imp(a.T, "false")), nil
 		}
 		return mkBool(imp(a.T, b.T)), nil
 	case "iff":
@@ -645,6 +647,11 @@ func (e *Env) callExpr(ex *ast.CallExpr) (SVal, error) {
 		return c.eval(ex.Args[0])
 	case "held":
 		return mkBool(boolLit(e.St.Held[argStr(0)])), nil
+	case "asserted":
+		if v, ok := e.St.NamedV["asserted("+argStr(0)+")"]; ok {
+			return v, nil
+		}
+		return SVal{}, fmt.Errorf("asserted(%s): no such type assertion on this path", argStr(0))
 	case "loaded", "atlock", "atunlock", "panicval":
 		key := fname + "(" + argStr(0) + ")"
 		if v, ok := e.St.NamedV[key]; ok {
